@@ -1,4 +1,5 @@
 """C13 - GNU symbol-version queries resolve to the right requirement/definition (linkage provenance)."""
+import re
 from ..engine import analyze_fn, norm as nm, program, State
 from ..terms import T, Term, pp
 from .. import prov
@@ -300,6 +301,11 @@ def check_wiring(F, rep, q):
                 msgs.append("starting offset is %s, expected 0" % show(a[3]))
         rep.require(not msgs, "wiring", "%s|%s" % (q, c.callee_qual), c.where(), "%s over the %s section: sh_info count, offset 0, file endianness/class" % (c.callee_qual.split("::")[-2], kname),
                     "%s: %s: %s" % (q, c.callee_qual, "; ".join(msgs)))
+    # the value that is returned is judged in any case; the call-site view below adds the diagnosis at the construction sites when the
+    # constructions are call sites of this body (they need not be: closures handed to map / transpose, helpers)
+    judged = wiring_by_value(F, rep, q, an, by_const, w)
+    if n != 3 and judged:
+        return
     rep.require(n == 3, "wiring", q + ":constructors", w, "index table, need iterator and def iterator are constructed", "%d of the 3 constructors found" % n)
     # string tables come from shdrs[sh_link] of the need / def section
     st_calls = [c for c in an.calls() if c.callee_qual == "string_table::StringTable::new"]
@@ -309,6 +315,84 @@ def check_wiring(F, rep, q):
         if "sh_link" in repr(b):
             links += 1
     rep.require(links == 2, "wiring", q + ":strings", w, "both string tables are the data of shdrs[sh_link]", "%d string tables located through sh_link" % links)
+
+
+def wiring_by_value(F, rep, q, an, by_const, w):
+    """Every Some(SymbolVersionTable{version_ids, verneeds, verdefs}) the function returns is wired as specified:
+    version_ids = u16 table over the bytes of the header found under sh_type == SHT_GNU_VERSYM; verneeds / verdefs = None, or
+    (iterator(file endianness, class, count = H.sh_info, bytes of H, offset 0), StringTable(bytes of shdrs[H.sh_link])) with H the
+    header found under SHT_GNU_VERNEED / SHT_GNU_VERDEF.  Returns True when it judged (reported) the wiring."""
+    from ..prov import ok_outcomes
+    me = P(1)
+    ehdr = F_(me, "ehdr")
+    KS = {k: cval(F, k) for k in ("SHT_GNU_VERSYM", "SHT_GNU_VERNEED", "SHT_GNU_VERDEF")}
+    outs = []
+    for v, st in ok_outcomes(an):
+        n = norm(v)
+        if n[0] == "agg" and n[2] == "Some" and n[3] and n[3][0][0] == "agg" and "SymbolVersionTable" in str(n[3][0][1]) and len(n[3][0][3]) == 3:
+            outs.append((n[3][0][3], st))
+    if not outs:
+        return False
+
+    def kind_of(H, st):
+        """which section kind the header term H (normal form) was selected under"""
+        ks = set()
+        ph_ = H[1] if (H[0] == "payload" and H[1][0] == "phi") else (H[2][0] if (H[0] == "call" and H[1] == "option::Option::unwrap" and H[2][0][0] == "phi") else None)
+        if ph_ is not None:
+            mm = re.search(r"\('L', (\d+)\)", ph_[2])
+            if mm:
+                for kname, K in KS.items():
+                    if int(mm.group(1)) in by_const.get(K, ()):
+                        ks.add(kname)
+        for f in st.facts:
+            if f[0] == "eq" and isinstance(f[1], Term) and f[1].op == "proj" and f[1].args[1][2] == "sh_type" and norm(f[1].args[0]) == H:
+                for kname, K in KS.items():
+                    if f[2] == K:
+                        ks.add(kname)
+        return ks
+
+    def bytes_of(b):
+        """(start, end) normal forms of a file-byte buffer of either parser"""
+        if b[0] == "slice" and b[1] == F_(me, "data"):
+            return b[2], b[3]
+        if b[0] == "file":
+            return b[1], b[2]
+        return None
+
+    def section_of(b):
+        r = bytes_of(b)
+        if r and r[0][0] == "fld" and r[0][2] == "sh_offset" and r[1] == prov.ADD(r[0], F_(r[0][1], "sh_size")):
+            return r[0][1]
+        return None
+    n_ok = 0
+    for (ids, needs, defs), st in outs:
+        msgs = []
+        H = section_of(ids[3][2]) if ids[0] == "agg" and len(ids[3]) >= 3 else None
+        if H is None or ids[3][0] != F_(ehdr, "endianness") or ids[3][1] != F_(ehdr, "class") or "SHT_GNU_VERSYM" not in kind_of(H, st):
+            msgs.append("version_ids is %s, expected the u16 table over the bytes of the SHT_GNU_VERSYM section with the file's endianness/class" % show(ids)[:200])
+        for val, kname, what in ((needs, "SHT_GNU_VERNEED", "verneeds"), (defs, "SHT_GNU_VERDEF", "verdefs")):
+            if val == ("agg", "option::Option", "None", ()):
+                continue
+            okv = False
+            if val[0] == "agg" and val[2] == "Some" and val[3][0][0] == "agg" and len(val[3][0][3]) == 2:
+                it, strs = val[3][0][3]
+                if it[0] == "agg" and len(it[3]) == 5 and strs[0] == "agg" and "StringTable" in str(strs[1]):
+                    e_, c_, cnt, buf, off = it[3]
+                    Hk = section_of(buf)
+                    Hs = section_of(strs[3][0])
+                    link_ok = Hs is not None and Hk is not None and (
+                        Hs == ("payload", ("call", "parse::ParsingTable::get", (("payload", F_(me, "shdrs"), "Some"), F_(Hk, "sh_link"))), "Ok")
+                        or Hs == ("payload", ("call", "[T]::get", (("call", "ops::Deref::deref", (F_(me, "shdrs"),)), F_(Hk, "sh_link"))), "Some"))
+                    okv = (Hk is not None and kname in kind_of(Hk, st) and e_ == F_(ehdr, "endianness") and c_ == F_(ehdr, "class")
+                           and cnt == F_(Hk, "sh_info") and off == C(0) and link_ok)
+            if not okv:
+                msgs.append("%s is %s, expected (iterator over the %s section: sh_info records from offset 0, file endianness/class; string table = bytes of shdrs[sh_link])"
+                            % (what, show(val)[:260], kname))
+        rep.require(not msgs, "wiring", "%s:value#%d" % (q, n_ok), w, "returned table wired as specified (judged on the returned value)", "%s: %s" % (q, "; ".join(msgs)))
+        n_ok += 1
+    shapes = {(x[1] != ("agg", "option::Option", "None", ()), x[2] != ("agg", "option::Option", "None", ())) for x, _ in outs}
+    rep.require((True, True) in shapes, "wiring", q + ":constructors", w, "an outcome with both the need and the def iterator exists", "no outcome carries both record iterators: %s" % sorted(shapes))
+    return True
 
 
 def run(ctx, rep):
